@@ -36,6 +36,8 @@ def contents(tier: str) -> List[Tuple[int, str]]:
         out.append((n, "ones"))
         if n:
             out.append((n, "triple"))
+    out.append((2, "odd"))
+    out.append((0, "odd"))
     return out
 
 
@@ -51,6 +53,10 @@ def interval_frames(tc, n: int, pattern: str, salt: int) -> List[bytes]:
             frames = [P.mkframe(BASE + k + salt, b"", timecode=tc, src_mod_id=21) for k in range(n)]
     if pattern == "triple" and n:
         frames += [frames[n // 2]] * 2
+    if pattern == "odd":
+        # type ids outside the TIMING table (negative, == MAX_MESSAGE_TYPES, large): counted by nobody's table entry
+        for mt in (-2, -2, -10000, -9999, P.MAX_MESSAGE_TYPES, 70000, -2 ** 31, 2 ** 31 - 2):  # -1 is the table terminator
+            frames.append(P.mkframe(mt, b"", timecode=tc, src_mod_id=21))
     return frames
 
 
